@@ -26,8 +26,11 @@ def payloads(tier):
     # the write as `gambit signatures create` does it: after a pooled signature calculation; death by os._exit and by SIGTERM
     small += [dict(n=3, size=6, container='cli', compression=None, mode='cli', kill=k) for k in ('exit', 'sigterm')]
     small += [dict(n=3, size=6, container='cli-meta', compression=None, mode='cli', kill='exit', with_meta=True)]      # ids (-i) and metadata (-m) given
+    # two writers on one path: a rival process writes another collection in full while this writer is between two signature writes
+    small += [dict(n=6, size=10, container='list', compression=None, rival_at=17)]
     big = [dict(n=4, size=300000, container=c, compression=comp) for c in ('array', 'annotated-list') for comp in (None, 'gzip')]
     big += [dict(n=3, size=300000, container='list', compression=None, preexisting=True)]
+    big += [dict(n=6, size=200000, container='list', compression=None, rival_at=at) for at in (17, 18)]      # multi-megabyte signatures go to disk at once
     # a payload beyond 2^26 bytes (sizes at which writers start to pre-allocate / switch strategy), written signature by signature
     big += [dict(n=5, size=1_800_000, container='annotated-list', compression=None)]
     if tier == 'thorough':
@@ -42,7 +45,7 @@ def payloads(tier):
 def record_trace(tmp, pl, idx):
     out = os.path.join(tmp, f't{idx}.gs')
     tr = os.path.join(tmp, f't{idx}.json')
-    p = run_writer(dict(pl, out=out, crash_at=-1, trace=tr))
+    p = run_writer(dict({k: v for k, v in pl.items() if k != 'rival_at'}, out=out, crash_at=-1, trace=tr))      # the call sequence of the writer on its own
     if p.returncode != 0:
         raise tlc.MachineryError(f'writer failed without crash injection: {p.stderr[-1500:]}')
     calls = json.load(open(tr))
@@ -67,12 +70,18 @@ def same_content(pl, path):
             want = load_signatures(ref)
         else:
             want = payload(pl)
-        ok = loaded.kmerspec == want.kmerspec and len(loaded) == len(want)
-        ok = ok and all(np.array_equal(np.asarray(a), np.asarray(b)) and np.asarray(a).dtype == np.asarray(b).dtype for a, b in zip(loaded, want))
-        if hasattr(want, 'ids'):
-            ok = ok and list(loaded.ids) == list(want.ids) and loaded.meta == want.meta
-        else:
-            ok = ok and list(loaded.ids) == list(range(len(want)))
+
+        def same(want):
+            ok = loaded.kmerspec == want.kmerspec and len(loaded) == len(want)
+            ok = ok and all(np.array_equal(np.asarray(a), np.asarray(b)) and np.asarray(a).dtype == np.asarray(b).dtype for a, b in zip(loaded, want))
+            if hasattr(want, 'ids'):
+                ok = ok and list(loaded.ids) == list(want.ids) and loaded.meta == want.meta
+            else:
+                ok = ok and list(loaded.ids) == list(range(len(want)))
+            return ok
+        ok = same(want)
+        if not ok and pl.get('rival_at') is not None and same(payload(dict(pl, seed=pl.get('seed', 1) + 500))):
+            return 'loaded-rival-complete', ''      # a complete file of the rival writer is a collection somebody wrote in full: not a wrong file
         return ('loaded-equal' if ok else 'loaded-different'), ''
     except BaseException as e:
         return 'loaded-different', f'compare failed: {type(e).__name__}'
@@ -143,6 +152,10 @@ def run(ctx):
             ncalls = len(calls)
             # with a pre-existing file the write has not begun before call 0 (the old file is legitimately still there)
             points = list(range(1 if pl.get('preexisting') else 0, ncalls + 1))
+            if pl.get('rival_at') is not None:
+                # only INTERRUPTED writes are in the statement's scope: the uninterrupted completion of a write that a second writer
+                # disturbed is not (HDF5 truncates the file before it fails to lock it - see DESIGN appendix E)
+                points = [p for p in points if pl['rival_at'] < p < ncalls]
             if pl['size'] > 1000 and ctx.tier == 'quick':
                 points = [p for p in points if p >= ncalls - 8 or p % 3 == 0]
             for cp in points:
